@@ -123,9 +123,16 @@ class EngineC18:
                 sl = [slice(None)] * N
                 sl[d] = j
                 x[tuple(sl)] = 0.0
+        int_dtype = "int64"
         if apr and sw.random() < 0.35:
             # genuine count data, held in integer storage (dense array / sparse values of dtype int64)
             x = np.ceil(x * 2.0)
+            init_int = True
+        elif alg in ("cp_als", "tucker_als") and sw.random() < 0.08:
+            # whole-number data held in a narrow integer type (sums of squares leave the range of that type)
+            int_dtype = sw.choice(["uint16", "int16", "int32", "uint8"])
+            top = {"uint16": 300, "int16": 200, "int32": 60000, "uint8": 200}[int_dtype]
+            x = np.where(x != 0, np.ceil(np.abs(x) * top / 2.0), 0.0)
             init_int = True
         else:
             init_int = False
@@ -144,7 +151,7 @@ class EngineC18:
         # tier, seed 702 run 11378: rank-3 CP-ALS on a 3x3 matrix with a zero column; one component collapses to
         # exactly zero or to 1e-16 depending on rounding, and CP-ALS then divides by its norm)
         eff = [max(1, int(np.count_nonzero(np.abs(np.moveaxis(x, n, 0)).reshape(shape[n], -1).sum(axis=1)))) for n in range(N)]
-        init: Dict[str, Any] = {"alg": alg, "shape": shape, "x": enc(x), "np_seed": st.u32("np"), "arpack_seed": st.u32("arpack"), "int_storage": init_int}
+        init: Dict[str, Any] = {"alg": alg, "shape": shape, "x": enc(x), "np_seed": st.u32("np"), "arpack_seed": st.u32("arpack"), "int_storage": init_int, "int_dtype": int_dtype}
         if alg in ("hosvd", "tucker_als"):
             # admissible (non-degenerate) multilinear ranks: r_n <= min(size_n, prod_{m != n} r_m)
             for _ in range(50):
@@ -184,6 +191,10 @@ class EngineC18:
                 init["loss"] = loss
                 init["init_kind"] = weighted(sw, [("random", 3), ("explicit", 3)])
                 init["guess_form"] = sw.choice(["ktensor", "ktensor", "list", "tuple"])  # how an explicit guess is handed over
+        if init.get("int_dtype", "int64") != "int64" and init.get("init_kind") == "nvecs":
+            # (leading-vector starts on narrow-integer data overflow in Xn @ Xn.T already on the unchanged tree -- a
+            # defect outside this relation, see DESIGN section 9; such data get a random start here)
+            init["init_kind"] = "random"
         if init.get("init_kind") == "explicit":
             rk = init.get("ranks") or [init["rank"]] * N
             lo = 0.05 if (apr or alg == "gcp_lbfgsb") else -1.0
@@ -329,7 +340,7 @@ class EngineC18:
         if perm is not None:
             xv = np.transpose(xv, perm)
         if init.get("int_storage") and scale == 1.0:
-            xv = xv.astype(np.int64)
+            xv = xv.astype(init.get("int_dtype", "int64"))
         edits = []
         x_final = xv
         if variant.get("history") == "edited_object":
